@@ -169,8 +169,9 @@ class _Sym:
         LP64) and every divisor with `≠ 0` — the obligations of "no signed overflow, no division by zero", guarded by the
         conditions of the enclosing `if`s."""
 
-    def __init__(self, toks, param):
+    def __init__(self, toks, param, consts=None):
         self.t, self.i, self.param = toks, 0, param
+        self.consts = consts or {}         # `const long N = v;` (64-bit)
         self.env = {"ts.tv_sec": "sec", "ts.tv_nsec": "nsec"}
         self.cenv = {"ts.tv_sec": "sec", "ts.tv_nsec": "nsec"}
         self.lets, self.n = [], 0
@@ -208,6 +209,8 @@ class _Sym:
             return self.env[e[1]] if e[1] in self.env else "timeout"
         if k == "ssa":
             return e[1]
+        if k == "cast64":
+            return self.emit_u(e[1])
         if k == "bin":
             return f"({self.emit_u(e[2])} {e[1]} {self.emit_u(e[3])})"
         if k == "neg":
@@ -239,6 +242,8 @@ class _Sym:
             return (self.cenv[e[1]] if e[1] in self.cenv else "timeout"), 64
         if k == "ssa":
             return e[2], 64
+        if k == "cast64":
+            return self.emit_c(e[1])[0], 64
         if k == "bin":
             (a, ta), (b, tb) = self.emit_c(e[2]), self.emit_c(e[3])
             ty = max(ta, tb)
@@ -312,9 +317,14 @@ class _Sym:
             self.take()
             if v in self.env or v == self.param:
                 return ("var", v)
+            if v in self.consts:
+                return ("num", self.consts[v], True)
             raise TransErr("unknown identifier in the deadline arithmetic: " + v)
         if (k, v) == ("op", "("):
             self.take()
+            if self.peek() in (("id", "long"), ("id", "int64"), ("id", "time_t")) and self.t[self.i + 1][:2] == ("op", ")"):
+                self.take(); self.take()          # cast to a 64-bit signed type: value unchanged, the operation is done in 64 bits
+                return ("cast64", self.unary())
             e = self.expr()
             self.take("op", ")")
             return e
@@ -398,11 +408,16 @@ def translate_deadline(repo, cls, rel, call):
     src = _strip_comments((Path(repo) / rel).read_text())
     param, body = _function_body(src, cls)
     body = _posix_branch(body)
-    m = re.search(r"struct\s+timespec\s+ts\s*;\s*clock_gettime\s*\(\s*CLOCK_REALTIME\s*,\s*&\s*ts\s*\)\s*;", body)
+    m = re.search(r"struct\s+timespec\s+ts\s*;\s*(?:clock_gettime\s*\(\s*CLOCK_REALTIME\s*,\s*&\s*ts\s*\)|"
+                  r"VERIFY\s*\(\s*clock_gettime\s*\(\s*CLOCK_REALTIME\s*,\s*&\s*ts\s*\)\s*==\s*0\s*\))\s*;", body)
     if not m:
         raise TransErr(f"{cls}::wait(int64): `struct timespec ts; clock_gettime(CLOCK_REALTIME, &ts);` not found")
     if "ts" in re.findall(r"\w+", body[:m.start()]):
         raise TransErr(f"{cls}::wait(int64): ts used before clock_gettime")
+    # named constants `const long N = <number>;` declared before the clock is read
+    consts = {n: int(v) for n, v in re.findall(r"\bconst\s+long\s+(\w+)\s*=\s*(\d+)\s*;", body[:m.start()])}
+    if param in consts or "ts" in consts:
+        raise TransErr(f"{cls}::wait(int64): a constant shadows {param} / ts")
     rest = body[m.end():]
     # the statement list ends at the first statement that is not about ts (the loop / the lock of the internal mutex)
     cut = re.search(r"\b(for|while|do|VERIFY|return|pthread_\w+|sem_\w+|goto)\b", rest)
@@ -414,9 +429,15 @@ def translate_deadline(repo, cls, rel, call):
     calls = re.findall(r"\b" + call + r"\s*\(([^;]*?)\)\s*(?:[!=]=|\))", tail)
     if not calls or not all(re.search(r",\s*&\s*ts\s*$", a) for a in calls):
         raise TransErr(f"{cls}::wait(int64): {call} is not called with &ts")
-    sym = _Sym(_tokens(stmts), param)
+    sym = _Sym(_tokens(stmts), param, consts)
     while sym.is_stmt_start():          # the deadline arithmetic ends at the first statement that is not about ts ...
         sym.stmt()
+    while sym.peek() == ("id", "ASSERT"):   # debug-build checks of the result: no effect (skipped up to their `;`)
+        while sym.peek() != ("op", ";"):
+            if sym.peek()[0] == "eof" or sym.peek() in (("op", "="), ("op", "+="), ("op", "-="), ("op", "++"), ("op", "--")):
+                raise TransErr(f"{cls}::wait(int64): ASSERT with a side effect")
+            sym.take()
+        sym.take()
     if re.search(r"ts\s*\.\s*tv_|\bts\s*=|&\s*ts\b", stmts[sym.offset():]):
         raise TransErr(f"{cls}::wait(int64): ts is used again after the statements that were translated: {stmts[sym.offset():][:60].strip()}")
     stmts = stmts[:sym.offset()]        # ... (and ts is not touched again before the wait: checked above and on `tail`)
@@ -663,19 +684,30 @@ def translate_api_facts(repo):
     f = {}
     f["mutexGuard"] = _guard(repo, "Mutex", "include/nstd/Mutex.hpp")
     f["monitorGuard"] = _guard(repo, "Monitor", "include/nstd/Monitor.hpp")
+    def stmts(body):
+        """statements of a brace-free body: ASSERT(...) dropped, VERIFY(X == 0) / VERIFY(X != -1) unwrapped to X"""
+        out = []
+        for st in [x.strip() for x in body.split(" ;") if x.strip()]:
+            if st.startswith("ASSERT ("):
+                continue
+            mm = re.fullmatch(r"VERIFY \( (.*) (?:== 0|!= - 1) \)", st)
+            out.append(mm.group(1) if mm else st)
+        return out
+    CI, MI = "pthread_cond_init ( ( pthread_cond_t * ) cdata , 0 )", "pthread_mutex_init ( ( pthread_mutex_t * ) mdata , 0 )"
     mu = _strip_comments((R / "src/Mutex.cpp").read_text())
     _, b = _method_body(mu, r"\bMutex\s*::\s*Mutex\s*\(\s*\)", "Mutex::Mutex()")
-    m = _expect(r"ASSERT \( [^;]* \) ; pthread_mutexattr_t (\w+) ; pthread_mutexattr_init \( & \1 \) ; pthread_mutexattr_settype \( & \1 , "
-                r"(PTHREAD_MUTEX_\w+) \) ; VERIFY \( pthread_mutex_init \( \( pthread_mutex_t \* \) data , & \1 \) == 0 \) ;", b, "Mutex::Mutex()")
+    m = _expect(r"pthread_mutexattr_t (\w+) # pthread_mutexattr_init \( & \1 \) # pthread_mutexattr_settype \( & \1 , (PTHREAD_MUTEX_\w+) \) # "
+                r"pthread_mutex_init \( \( pthread_mutex_t \* \) data , & \1 \)(?: # pthread_mutexattr_destroy \( & \1 \))?", " # ".join(stmts(b)), "Mutex::Mutex()")
     if m.group(2) not in ("PTHREAD_MUTEX_RECURSIVE", "PTHREAD_MUTEX_NORMAL", "PTHREAD_MUTEX_DEFAULT", "PTHREAD_MUTEX_ERRORCHECK"):
         raise TransErr("Mutex::Mutex(): unknown mutex type " + m.group(2))
     f["mutexRecursive"] = m.group(2) == "PTHREAD_MUTEX_RECURSIVE"
     _, b = _method_body(mu, r"\bMutex\s*::\s*~\s*Mutex\s*\(\s*\)", "Mutex::~Mutex()")
-    _expect(r"VERIFY \( pthread_mutex_destroy \( \( pthread_mutex_t \* \) data \) == 0 \) ;", b, "Mutex::~Mutex()")
+    if stmts(b) != ["pthread_mutex_destroy ( ( pthread_mutex_t * ) data )"]:
+        raise TransErr("Mutex::~Mutex(): not of the transcribed form: " + b[:120])
     si = _strip_comments((R / "src/Signal.cpp").read_text())
     hm, b = _method_body(si, r"\bSignal\s*::\s*Signal\s*\(\s*bool\s+(\w+)\s*\)", "Signal::Signal(bool)")
-    _expect(r"(ASSERT \( [^;]* \) ; )*pthread_cond_init \( \( pthread_cond_t \* \) cdata , 0 \) ; pthread_mutex_init \( \( pthread_mutex_t \* \) mdata , 0 \) ; "
-            r"signaled = " + re.escape(hm.group(1)) + r" ;", b, "Signal::Signal(bool)")
+    if sorted(stmts(b)) != sorted([CI, MI, "signaled = " + hm.group(1)]):      # three independent initialisations, any order
+        raise TransErr("Signal::Signal(bool): not of the transcribed form: " + b[:160])
     sh = _norm(_strip_comments((R / "include/nstd/Signal.hpp").read_text()))
     dm = re.search(r"\bSignal \( bool \w+ = (true|false) \) ;", sh)
     if not dm:
@@ -683,20 +715,23 @@ def translate_api_facts(repo):
     f["signalDefaultArg"] = dm.group(1) == "true"
     for cls, srcf in (("Signal", si), ("Monitor", _strip_comments((R / "src/Monitor.cpp").read_text()))):
         _, b = _method_body(srcf, r"\b" + cls + r"\s*::\s*~\s*" + cls + r"\s*\(\s*\)", f"{cls}::~{cls}()")
-        _expect(r"VERIFY \( pthread_cond_destroy \( \( pthread_cond_t \* \) cdata \) == 0 \) ; VERIFY \( pthread_mutex_destroy \( \( pthread_mutex_t \* \) mdata \) == 0 \) ;",
-                b, f"{cls}::~{cls}()")
+        if sorted(stmts(b)) != sorted(["pthread_cond_destroy ( ( pthread_cond_t * ) cdata )", "pthread_mutex_destroy ( ( pthread_mutex_t * ) mdata )"]):
+            raise TransErr(f"{cls}::~{cls}(): not of the transcribed form: " + b[:160])
     mo = _strip_comments((R / "src/Monitor.cpp").read_text())
     hm = re.search(r"\bMonitor\s*::\s*Monitor\s*\(\s*\)\s*:\s*signaled\s*\(\s*(true|false)\s*\)", mo)
     if not hm:
         raise TransErr("Monitor::Monitor() : signaled(<bool>) not found")
     f["monitorInitFlag"] = hm.group(1) == "true"
     _, b = _method_body(mo, r"\bMonitor\s*::\s*Monitor\s*\(\s*\)\s*:\s*signaled\s*\(\s*\w+\s*\)", "Monitor::Monitor()")
-    _expect(r"(ASSERT \( [^;]* \) ; )*pthread_cond_init \( \( pthread_cond_t \* \) cdata , 0 \) ; pthread_mutex_init \( \( pthread_mutex_t \* \) mdata , 0 \) ;", b, "Monitor::Monitor()")
+    if sorted(stmts(b)) != sorted([CI, MI]):
+        raise TransErr("Monitor::Monitor(): not of the transcribed form: " + b[:160])
     se = _strip_comments((R / "src/Semaphore.cpp").read_text())
     hm, b = _method_body(se, r"\bSemaphore\s*::\s*Semaphore\s*\(\s*uint\s+(\w+)\s*\)", "Semaphore::Semaphore(uint)")
-    _expect(r"(ASSERT \( [^;]* \) ; )*VERIFY \( sem_init \( \( sem_t \* \) data , 0 , " + re.escape(hm.group(1)) + r" \) != - 1 \) ;", b, "Semaphore::Semaphore(uint)")
+    if stmts(b) != ["sem_init ( ( sem_t * ) data , 0 , " + hm.group(1) + " )"]:
+        raise TransErr("Semaphore::Semaphore(uint): not of the transcribed form: " + b[:160])
     _, b = _method_body(se, r"\bSemaphore\s*::\s*~\s*Semaphore\s*\(\s*\)", "Semaphore::~Semaphore()")
-    _expect(r"VERIFY \( sem_destroy \( \( sem_t \* \) data \) != - 1 \) ;", b, "Semaphore::~Semaphore()")
+    if stmts(b) != ["sem_destroy ( ( sem_t * ) data )"]:
+        raise TransErr("Semaphore::~Semaphore(): not of the transcribed form: " + b[:160])
     th = _strip_comments((R / "src/Thread.cpp").read_text())
     if not re.search(r"\bThread\s*::\s*Thread\s*\(\s*\)\s*:\s*thread\s*\(\s*0\s*\)", th):
         raise TransErr("Thread::Thread() : thread(0) not found")
@@ -830,19 +865,63 @@ def translate_cfg(repo=None):
     return True, f"{len(CFG_FUNCTIONS) + 5} member functions, {n} program points"
 
 
+GEN_SHAPE = C.LEAN / "Nstd" / "Generated" / "SyncShape.lean"
+
+
+def translate_shape(repo=None):
+    """Which of the variants that the contract leaves open does the CURRENT source have (the transition systems are parametric
+    in them and every theorem holds for all values; the driver instantiates the model with these, and the `*_is_translated_code`
+    theorems check the instance against the translated tables): read off the control-flow tables."""
+    repo = Path(repo or C.REPO)
+    try:
+        G = _load_cfg()
+        si = _strip_comments((repo / "src/Signal.cpp").read_text())
+        _, b = _method_body(si, r"\bvoid\s+Signal\s*::\s*set\s*\(\s*\)", "Signal::set()")
+        entry, nodes = G.table(b, "Signal::set()")
+        if not nodes or nodes[0][0] != "mutexLock" or nodes[0][1][0] is None or nodes[0][1][0][3][0] != "node":
+            raise TransErr("Signal::set(): does not begin with the lock of the internal mutex")
+        skips = nodes[nodes[0][1][0][3][1]][0] != "condBroadcast"        # what follows the lock when the flag is already set
+        _, b = _method_body(si, r"\bbool\s+Signal\s*::\s*wait\s*\(\s*int64\s+\w+\s*\)", "Signal::wait(int64)")
+        entry, nodes = G.table(G.strip_deadline(b, "Signal::wait(int64)"), "Signal::wait(int64)")
+        if entry[1] is None:
+            raise TransErr("Signal::wait(int64): traps at once")
+        lazy = not entry[1][2]                                          # is the clock read before the first POSIX call?
+        _, (sentry, snodes), _ = sem_wait_table(repo)
+        if sentry is None or sentry[1][0] != "node":
+            raise TransErr("Semaphore::wait(int64): no POSIX call")
+        tryfirst = snodes[sentry[1][1]][0] == "semTryWait"
+    except (OSError, TransErr, G.CfgErr) as e:
+        return False, str(e)
+    B = lambda x: "true" if x else "false"
+    out = ("/- generated by tools/areas/sync.py (translate_shape) from the control-flow tables of src/Signal.cpp, src/Semaphore.cpp - do not edit -/\n"
+           "namespace Nstd.Generated.SyncShape\n\n"
+           "/-- `Signal::set()` on a flag that is already set goes straight to the unlock (no store, no broadcast) -/\n"
+           f"def signalSetSkips : Bool := {B(skips)}\n\n"
+           "/-- `Signal::wait(int64)` reads the clock only after its lock (when the flag is clear), not before the first POSIX call -/\n"
+           f"def signalLazyDeadline : Bool := {B(lazy)}\n\n"
+           "/-- `Semaphore::wait(int64)` begins with a `sem_trywait` fast path -/\n"
+           f"def semTryFirst : Bool := {B(tryfirst)}\n\n"
+           "end Nstd.Generated.SyncShape\n")
+    GEN_SHAPE.parent.mkdir(parents=True, exist_ok=True)
+    if not GEN_SHAPE.exists() or GEN_SHAPE.read_text() != out:
+        GEN_SHAPE.write_text(out)
+    return True, f"Signal::set skips when set: {skips}; Signal::wait(timeout) lazy deadline: {lazy}; Semaphore::wait(timeout) trywait first: {tryfirst}"
+
+
 def gen(ctx):
     parts = [("deadline arithmetic of the timed waits -> Nstd/Generated/SyncDeadline.lean: ", translate()),
              ("order of Monitor::set -> Nstd/Generated/SyncMonitorOrder.lean: ", translate_order()),
              ("constants of the ENOSYS polling loop, read off the table of Semaphore::wait(int64) -> Nstd/Generated/SyncSemPoll.lean: ", translate_poll()),
              ("Guards, constructors, destructors, Thread::sleep/yield/getCurrentThreadId -> Nstd/Generated/SyncApi.lean: ", translate_api()),
-             ("control-flow tables of the member functions of Mutex / Signal / Monitor / Semaphore / Thread -> Nstd/Generated/SyncCfg.lean: ", translate_cfg())]
+             ("control-flow tables of the member functions of Mutex / Signal / Monitor / Semaphore / Thread -> Nstd/Generated/SyncCfg.lean: ", translate_cfg()),
+             ("variants of Signal::set / Signal::wait(timeout) / Semaphore::wait(timeout) the model is instantiated with -> Nstd/Generated/SyncShape.lean: ", translate_shape())]
     if ctx is not None:
         ctx.cov["translated"] = "; ".join(h + m for h, (o, m) in parts)
     return all(o for _, (o, _) in parts), "; ".join(m for _, (o, m) in parts if not o)
 
 
 def setup():
-    for ok, msg in (translate(), translate_order(), translate_poll(), translate_api(), translate_cfg()):
+    for ok, msg in (translate(), translate_order(), translate_poll(), translate_api(), translate_cfg(), translate_shape()):
         if not ok:
             print("sync translate:", msg)
 
